@@ -1505,11 +1505,15 @@ package gmars
 //@   panics [C05]
 //@   modifies nothing
 
+// the cached reader implements the stream protocol the scanner, the FOR expander and the parser rely on: the cached
+// tokens are delivered in order without an error, every call after the last one fails
 //@ func (*bufTokenReader).NextToken
 //@   panics [C05]
 //@   requires r != nil && 0 <= r.i
 //@   modifies r.i
 //@   ensures 0 <= r.i
+//@   ensures [C05][C03] old(r.i) < len(r.tokens) ==> result.1 == nil && result.0 == r.tokens[old(r.i)] && r.i == old(r.i) + 1
+//@   ensures [C05] old(r.i) >= len(r.tokens) ==> result.1 != nil && r.i == old(r.i)
 
 // parser
 // what the parser's states record (C03): the fields of the line being built, and that a finished line is appended
